@@ -26,28 +26,29 @@ type FnCtx struct {
 	cur    *State
 	entry  *State // state at function entry (for old())
 
-	blockExit    map[*ssa.BasicBlock]*State
-	edgeCond     map[[2]int]string
-	loopHeads    map[*ssa.BasicBlock]*loopInfo
-	loopOrder    []*ssa.BasicBlock
-	defers       []*deferRec
-	locals       map[string]ssa.Value // source name -> latest DebugRef'd value (dominating, approximated)
-	debugRefs    []*ssa.DebugRef
-	exits        []*exitInfo
-	activeLoops  []*loopInfo // loops whose body is currently executed (for write checks)
-	curBlock     *ssa.BasicBlock
-	safety       bool
-	safetyTags   []string
-	callCount    map[string]int
-	oblCount     map[string]int
-	lastCall     string
-	letVals      map[string]Val
-	paramVars    map[string]Val
-	readFails    [][2]string // (reader, failure flag) pairs of the reads(...) items of the contract call being applied
-	lastSort     *sortInfo
-	preDeferSite string
-	noClosure    bool
-	lastReads    []string
+	blockExit      map[*ssa.BasicBlock]*State
+	edgeCond       map[[2]int]string
+	loopHeads      map[*ssa.BasicBlock]*loopInfo
+	loopOrder      []*ssa.BasicBlock
+	defers         []*deferRec
+	locals         map[string]ssa.Value // source name -> latest DebugRef'd value (dominating, approximated)
+	debugRefs      []*ssa.DebugRef
+	exits          []*exitInfo
+	activeLoops    []*loopInfo // loops whose body is currently executed (for write checks)
+	curBlock       *ssa.BasicBlock
+	safety         bool
+	safetyTags     []string
+	callCount      map[string]int
+	oblCount       map[string]int
+	lastCall       string
+	letVals        map[string]Val
+	paramVars      map[string]Val
+	loopMisaligned bool        // the contract loop clauses do not match the loops of the function one to one
+	readFails      [][2]string // (reader, failure flag) pairs of the reads(...) items of the contract call being applied
+	lastSort       *sortInfo
+	preDeferSite   string
+	noClosure      bool
+	lastReads      []string
 }
 
 type deferRec struct {
@@ -320,9 +321,9 @@ func (fc *FnCtx) execBody(entry *State, params []Val) (err error) {
 	}
 	for _, li := range fc.loopHeads {
 		fc.computeLoopMods(li)
-		if fc.con != nil {
-			li.con = fc.con.Loops[li.ordinal]
-		}
+	}
+	if fc.con != nil {
+		fc.alignLoops()
 	}
 	if fc.parent == nil {
 		// ancestors of every block in the cut DAG, for slicing the background facts of an obligation
@@ -1845,4 +1846,70 @@ func (fc *FnCtx) callIsLight(c *ssa.CallCommon, depth int) bool {
 		return true
 	}
 	return false
+}
+
+// alignLoops attaches the contract's `loop N` clauses to the loops of the function. Normally clause N belongs to the
+// N-th loop head in block order. When the code has a different number of loops than the contract (a loop was added
+// or removed), the clauses are matched in order, skipping loops that cannot be theirs (a clause that speaks about
+// `rangeindex` needs a range loop); loops left without a clause get no invariant (sound: the modified state is
+// simply unknown after them), and the mismatch is reported as a generator warning.
+func (fc *FnCtx) alignLoops() {
+	var clauses []*LoopCon
+	maxN := 0
+	for n := range fc.con.Loops {
+		if n > maxN {
+			maxN = n
+		}
+	}
+	for n := 1; n <= maxN; n++ {
+		if c := fc.con.Loops[n]; c != nil {
+			clauses = append(clauses, c)
+		}
+	}
+	loops := fc.loopOrder
+	if len(clauses) == 0 {
+		return
+	}
+	if len(loops) == maxN {
+		for _, h := range loops {
+			li := fc.loopHeads[h]
+			li.con = fc.con.Loops[li.ordinal]
+		}
+		return
+	}
+	fc.loopMisaligned = true
+	fc.vc.warn("%s: the contract has clauses for %d loops, the function has %d: clauses matched in order, unmatched loops carry no invariant", fc.fn.Name(), maxN, len(loops))
+	isRange := func(li *loopInfo) bool {
+		for _, ins := range li.head.Instrs {
+			phi, ok := ins.(*ssa.Phi)
+			if !ok {
+				break
+			}
+			if phi.Comment == "rangeindex" {
+				return true
+			}
+		}
+		return false
+	}
+	needsRange := func(c *LoopCon) bool {
+		for _, inv := range c.Invs {
+			if strings.Contains(inv.Src, "rangeindex") {
+				return true
+			}
+		}
+		return false
+	}
+	k := 0
+	for i, h := range loops {
+		if k >= len(clauses) {
+			break
+		}
+		li := fc.loopHeads[h]
+		remainingLoops := len(loops) - i
+		remainingClauses := len(clauses) - k
+		if needsRange(clauses[k]) == isRange(li) || remainingLoops <= remainingClauses {
+			li.con = clauses[k]
+			k++
+		}
+	}
 }
